@@ -435,9 +435,20 @@ fn ops(mut t: PciTransport, mult: u32, notify_len: u32, nq: usize, cfg_window_ex
                 }
             }
             7 => {
-                let s = [1u32, 3, 11][choose(3) as usize];
+                let s = [1u32, 3, 11, 0][choose(4) as usize];
                 t.set_status(DeviceStatus::from_bits_retain(s));
-                if t.get_status().bits() != s {
+                if s == 0 {
+                    // reset: the device may take a few reads to report completion; afterwards
+                    // every queue is disabled and queue_select is back at 0
+                    let mut n = 0;
+                    while t.get_status().bits() != 0 && n < 16 {
+                        n += 1;
+                    }
+                    oplog(|| format!("reset (status 0 after {n} extra reads)"));
+                    if n == 16 {
+                        violation("pci-value", "status", "status never read 0 after a reset".into());
+                    }
+                } else if t.get_status().bits() != s {
                     violation("pci-value", "status", format!("wrote {s:#x}, read {:#x}", t.get_status().bits()));
                 }
             }
